@@ -41,10 +41,12 @@ PROPS = {
         "modules": ["Cose.Props.C11"],
         "families": ["prim:mac"],
         "spec_ops": ["prim.mac", "prim.macverify", "prim.mac2"],
+        "extras": [{"name": "race", "pkg": "./race", "build_flags": ["-race"], "args": ["-seed", "{seed}", "-n", "{n}", "-only", "hmac,aesmac,MACer"],
+                    "n_quick": 40, "n_thorough": 600, "timeout": 3000}],
         "n_quick": 3000, "n_thorough": 200000,
         "rule": "8 MAC algorithms x random keys (1/12 of wrong size 0..80) x message lengths covering every residue mod 16/64/128, 0, "
                 "and 65279..70000; each tag then verified as is / truncated / extended / bit-flipped / for other data / under another key; "
-                "library answer compared with the Lean HMAC-SHA2 and AES-CBC-MAC reference",
+                "library answer compared with the Lean HMAC-SHA2 and AES-CBC-MAC reference; results of earlier calls stay untouched by later ones (prim.mac2); a -race program with shared MACers",
         "trusted_base": ["Lean SHA-2 and AES reference cores (validated by FIPS/RFC KATs as #guard and by this differential run)",
                          "RFC 9053 tables 3 and 4 as transcribed in Props/C11.lean"],
         "assumptions": ["SHA-2 output lengths are hypotheses of hmac_tag_length", "unforgeability of HMAC/CBC-MAC is not a theorem"],
@@ -53,10 +55,12 @@ PROPS = {
         "modules": ["Cose.Props.C12"],
         "families": ["prim:aead"],
         "spec_ops": ["prim.aead.enc", "prim.aead.dec", "prim.aead2"],
+        "extras": [{"name": "race", "pkg": "./race", "build_flags": ["-race"], "args": ["-seed", "{seed}", "-n", "{n}", "-only", "aesgcm,aesccm,chacha,Encryptor"],
+                    "n_quick": 40, "n_thorough": 600, "timeout": 3000}],
         "n_quick": 2500, "n_thorough": 120000,
         "rule": "12 AEAD algorithms x random keys (wrong sizes 1/15) x nonces (wrong lengths 1/12) x plaintext and additional-data lengths "
                 "0..70 / block boundaries / 65279,65280,65281,65535,65536,65537,70000; each ciphertext then decrypted as is or with a "
-                "bit flipped in ciphertext / nonce / aad / key, truncated or extended; library vs Lean GCM, RFC 3610 CCM, RFC 8439",
+                "bit flipped in ciphertext / nonce / aad / key, truncated or extended; library vs Lean GCM, RFC 3610 CCM, RFC 8439; results of earlier calls and arguments stay untouched (prim.aead2), the key's alg changed after construction (prim.aeadalg); a -race program with shared Encryptors",
         "trusted_base": ["Lean AES, GHASH, ChaCha20, Poly1305 reference cores (KATs as #guard + this differential run)",
                          "RFC 3610 / RFC 9053 tables as transcribed in Constructions.lean and Props/C12.lean"],
         "assumptions": ["AEAD security (tag unforgeability) is not a theorem; uniqueness theorems reduce acceptance of a changed ciphertext to a tag collision"],
@@ -155,16 +159,20 @@ PROPS = {
         "assumptions": ["group law / point derivation correctness of Go and of the Lean reference assumed, compared against each other"],
     },
     "C10": {
-        "modules": ["Cose.Props.C10"], "families": ["sig", "conv"], "spec_ops": ["sig.verify", "conv.ed25519", "conv.ecdsa", "conv.gen"],
+        "modules": ["Cose.Props.C10"], "families": ["sig", "conv"], "spec_ops": ["sig.verify", "sig.decode", "sig.encode", "conv.ed25519", "conv.ecdsa", "conv.gen"],
+        "extras": [{"name": "race", "pkg": "./race", "build_flags": ["-race"], "args": ["-seed", "{seed}", "-n", "{n}", "-only", "ecdsa,ed25519,Signer"],
+                    "n_quick": 40, "n_thorough": 600, "timeout": 3000}],
         "n_quick": 500, "n_thorough": 40000,
         "rule": "ES256/384/512 + EdDSA x keys incl. leading-zero scalars/coordinates x messages 0..70000 bytes; library-made signatures (and r at the codec boundary values 1, 2^k, n-1) verified by the Lean "
                 "ECDSA / Ed25519 reference under public keys in derived / exported / compressed form; every signature then mutated (bit flip, truncation, extension, leading zero, random) and the verdicts compared; "
-                "Ed25519 signatures byte-identical",
+                "Ed25519 signatures byte-identical; the r||s codec alone (sig.decode / sig.encode: lengths around 2n, halves with leading zeros, integers at the size limit); a -race program with shared signers / verifiers",
         "trusted_base": ["Lean ECDSA / Ed25519 / SHA-2 reference (RFC 6979, RFC 8032 KATs + this run)"],
         "assumptions": ["signature correctness and unforgeability are not theorems"],
     },
     "C14": {
         "modules": ["Cose.Props.C14"], "families": ["ecdh"], "spec_ops": ["ecdh.symmetric", "ecdh.derive"],
+        "extras": [{"name": "race", "pkg": "./race", "build_flags": ["-race"], "args": ["-seed", "{seed}", "-n", "{n}", "-only", "ecdh"],
+                    "n_quick": 40, "n_thorough": 600, "timeout": 3000}],
         "n_quick": 300, "n_thorough": 20000,
         "rule": "4 curves x generated key pairs (one third with leading-zero coordinates) x remote key encodings {uncompressed, stripped, compressed, compressed with stripped x} + invalid remotes "
                 "(private, other curve, off-curve x, wrong lengths, all-zero, the seven low-order X25519 points); both directions on the library must agree with each other and with the Lean scalar multiplication / X25519 ladder",
